@@ -266,6 +266,51 @@ def oracle(ck, tier, deep):
                     break
         except Exception as e:
             ck.violation(dict(site="rbasex", clause="exception"), dict(Rmax=Rm, order=order, odd=odd), f"{type(e).__name__}: {e}")
+    # rbasex, one session with a basis directory: the unregularised inverse is computed (and saved together with the basis), then the
+    # forward operators are requested — they are still the projected basis
+    for (Rm, order, odd) in ((14, 2, False), (20, 4, True), (9, 0, False)):
+        d = tempfile.mkdtemp(prefix="c09_", dir=scratch)
+        rbasex.cache_cleanup()
+        ck.count(("S.cached", "rbasex-save", Rm, order, odd), suite="S.get_bs_cached")
+        try:
+            quiet(rbasex.get_bs_cached, Rm, order, odd, "inverse", basis_dir=d)
+            Af = [np.array(a) for a in quiet(rbasex.get_bs_cached, Rm, order, odd, "forward", basis_dir=d)]
+            Ai = [np.array(a) for a in quiet(rbasex.get_bs_cached, Rm, order, odd, "inverse", ("L2", 0.5), basis_dir=d)]
+            rbasex.cache_cleanup()
+            bs = [P.copy() for P in quiet(rbasex._bs_rbasex, Rm, order, odd)]
+            Ai_ref = [np.array(a) for a in quiet(rbasex.get_bs_cached, Rm, order, odd, "inverse", ("L2", 0.5))]
+            if any(np.abs(a - P.T).max() > 1e-12 * max(1.0, np.abs(P).max()) for a, P in zip(Af, bs)) or \
+                    any(np.abs(a - b).max() > 1e-9 * max(1.0, np.abs(b).max()) for a, b in zip(Ai, Ai_ref)):
+                ck.violation(dict(site="rbasex", clause="get_bs_cached=generator"), dict(Rmax=Rm, order=order, odd=odd, mode="after saving the inverse"),
+                             f"rbasex.get_bs_cached({Rm}, {order}, {odd}) forward / regularised operators requested after the unregularised inverse "
+                             "was computed and saved are not those of the projected basis")
+        except Exception as e:
+            ck.violation(dict(site="rbasex", clause="exception"), dict(Rmax=Rm, order=order, odd=odd, mode="after saving the inverse"), f"{type(e).__name__}: {e}")
+        finally:
+            import shutil
+            shutil.rmtree(d, ignore_errors=True)
+    rbasex.cache_cleanup()
+    # basex from disk: a later session asks for a basis width that differs from a saved one only beyond the second decimal
+    for (n_, s1, s2) in ((20, 1.5, 1.504), (16, 0.7, 0.7000000000000001), (20, 2.0, 2.004), (24, 1.25, 1.254)):
+        d = tempfile.mkdtemp(prefix="c09_", dir=scratch)
+        basex.cache_cleanup()
+        ck.count(("S.cached", "basex-disk", n_, s1, s2), suite="S.get_bs_cached")
+        try:
+            quiet(basex.get_bs_cached, n_, s1, 0.0, False, d, 1.0, False, "forward")
+            basex.cache_cleanup()
+            got = np.array(quiet(basex.get_bs_cached, n_, s2, 0.0, False, d, 1.0, False, "forward"))
+            basex.cache_cleanup()
+            want = np.array(quiet(basex.get_bs_cached, n_, s2, 0.0, False, None, 1.0, False, "forward"))
+            if got.shape != want.shape or np.abs(got - want).max() > 1e-10 * max(1.0, np.abs(want).max()):
+                ck.violation(dict(site="basex", clause="get_bs_cached=generator"), dict(n=n_, first_sigma=s1, then_sigma=s2, mode="disk"),
+                             f"basex.get_bs_cached({n_}, sigma={s2!r}) served from a directory holding sigma={s1!r} differs from the sigma={s2!r} "
+                             f"operator by {np.abs(got - want).max() if got.shape == want.shape else 'shape'}")
+        except Exception as e:
+            ck.violation(dict(site="basex", clause="exception"), dict(n=n_, first_sigma=s1, then_sigma=s2), f"{type(e).__name__}: {e}")
+        finally:
+            import shutil
+            shutil.rmtree(d, ignore_errors=True)
+    basex.cache_cleanup()
     # rbasex from disk: a later session (empty memory cache) is served from the file an earlier request left — larger radius,
     # higher order, the other parity — and must get exactly the projected basis it asked for
     for (first, then) in (((20, 4, False), (14, 2, True)), ((20, 3, True), (14, 2, False)), ((20, 3, True), (14, 3, True)),
